@@ -20,10 +20,22 @@ for d in /verif/benign/*/; do
     id=$(basename "$d")
     [ -f "$d/patch.diff" ] || continue
     git -C "$S/repo" apply "$d/patch.diff" || { echo "| $id | patch does not apply | |" >> $TMP; continue; }
-    ./check quick C09 > "$S/c09.log" 2>&1; r1=$?
-    ./check quick C19 > "$S/c19.log" 2>&1; r2=$?
+    tier=$(python3 -c "import json;print(json.load(open('$d/meta.json')).get('check_tier','quick'))")
+    note=""
+    if [ "$tier" = polars ]; then
+        # changes inside polars.rs: only the Polars build of the engine (part of ./check thorough) sees them
+        note=" (Polars build, thorough tier)"
+        ( cd streamsim && cargo build --release --features polars --target-dir target-polars 2>"$S/build.log" ) || { echo "polars build failed"; tail -5 "$S/build.log"; }
+        ./streamsim/target-polars/release/streamsim run --prop C09 --tier thorough --scale 0.25 --label "polars back end" \
+            --known "$S/verif/known_findings.jsonl" --replay-dir "$S/verif/replays" > "$S/c09.log" 2>&1; r1=$?
+        ./streamsim/target-polars/release/streamsim run --prop C19 --tier thorough --scale 0.25 --label "polars back end" \
+            --known "$S/verif/known_findings.jsonl" --replay-dir "$S/verif/replays" > "$S/c19.log" 2>&1; r2=$?
+    else
+        ./check quick C09 > "$S/c09.log" 2>&1; r1=$?
+        ./check quick C19 > "$S/c19.log" 2>&1; r2=$?
+    fi
     git -C "$S/repo" checkout -- .
-    echo "| $id | $r1 | $r2 |" >> $TMP
+    echo "| $id | $r1$note | $r2$note |" >> $TMP
     echo "$id C09=$r1 C19=$r2"
     if [ $r1 -ne 0 ] || [ $r2 -ne 0 ]; then alarms=$((alarms+1)); grep -h "^violation of" "$S/c09.log" "$S/c19.log" | head -3; fi
 done
